@@ -14,6 +14,7 @@ import LfsModel.TQTrace
 import LfsModel.Backoff
 import LfsModel.FilterProcess
 import LfsModel.CrashExec
+import LfsModel.Hooks
 import LfsModel.Gen
 open Lfs
 
@@ -296,6 +297,20 @@ def c09 : List String → String
       | some i => s!"refused at operation {i}: {(ws.splitOn ",").getD i "?"}"
   | _ => "bad-op"
 
+def c20Specs : List Hk.HookSpec := (Gen.hookCurrent.zip Gen.hookUpgradeables).map fun p => ⟨p.1, p.2⟩
+
+def c20 : List String → String
+  | ["all", op, force, fs] =>
+    match (fs.splitOn ",").mapM unhexOpt with
+    | none => "bad-op"
+    | some files =>
+      if files.length != c20Specs.length then "bad-op" else
+      let inp := c20Specs.zip files
+      let res := if op == "install" then (Hk.installAll Gen.hookReadWindow (force == "1") inp).1
+                 else (Hk.uninstallAll Gen.hookReadWindow inp).1
+      String.intercalate "," (res.map fun f => match f with | none => "none" | some b => shaOrDash b)
+  | _ => "bad-op"
+
 def answer (line : String) : String :=
   match line.splitOn " " with
   | "C07" :: rest => c07 rest
@@ -307,6 +322,7 @@ def answer (line : String) : String :=
   | "TQ" :: rest => tqTrace rest
   | "C14" :: rest => c14 rest
   | "C09" :: rest => c09 rest
+  | "C20" :: rest => c20 rest
   | "C15" :: rest => c15 rest
   | _ => "bad-op"
 
